@@ -78,7 +78,7 @@ func MutateStatic(t *sim.T, m *StaticModel, focus FaultFocus) string {
 	if focus == FocusRefs {
 		kind = []int{2, 3, 4, 5, 6, 7, 16, 17, 18, 0, 19, 20, 14, 21, 24}[t.Choose(15)]
 	} else {
-		kind = t.Choose(27)
+		kind = t.Choose(29)
 	}
 	switch kind {
 	case 0: // blank a cell
@@ -482,6 +482,32 @@ func MutateStatic(t *sim.T, m *StaticModel, focus FaultFocus) string {
 		}
 		tb.Raw = toUTF16(c.CSV(false, false), t.Chance(1, 2))
 		return fmt.Sprintf("%s as UTF-16 with characters outside the basic plane (%d bytes)", tb.Name, len(tb.Raw))
+	case 27, 28: // a boundary value in a numeric or time column (zero, minus one, 32/64-bit limits, 24:00:00 ...)
+		numeric := map[string][]string{
+			"frequencies.txt": {"headway_secs", "start_time", "end_time", "exact_times"},
+			"stop_times.txt":  {"stop_sequence", "arrival_time", "departure_time", "shape_dist_traveled", "pickup_type", "timepoint"},
+			"shapes.txt":      {"shape_pt_sequence", "shape_pt_lat", "shape_pt_lon", "shape_dist_traveled"},
+			"transfers.txt":   {"min_transfer_time", "transfer_type"},
+			"routes.txt":      {"route_sort_order", "route_type"},
+			"stops.txt":       {"stop_lat", "stop_lon", "location_type", "wheelchair_boarding"},
+			"calendar.txt":    {"monday", "sunday"},
+		}
+		tb := pickTable(t, f, "frequencies.txt", "stop_times.txt", "shapes.txt", "transfers.txt", "routes.txt", "stops.txt", "calendar.txt")
+		if tb == nil || len(tb.Rows) == 0 {
+			return ""
+		}
+		cols := numeric[tb.Name]
+		col := tb.Col(cols[t.Choose(len(cols))])
+		if col < 0 {
+			return ""
+		}
+		v := []string{"0", "-1", "1", "00", "2147483647", "2147483648", "-2147483648", "4294967295", "4294967296", "9223372036854775807", "9223372036854775808", "0.0", "-0.0", "1e9", "00:00:00", "24:00:00", "23:59:59", "99:59:59", "0:0:0", "100:00:00"}[t.Choose(20)]
+		r := t.Choose(len(tb.Rows))
+		setCell(tb, r, col, v)
+		if tb.Name == "frequencies.txt" && t.Chance(1, 2) {
+			setCell(tb, r, tb.Col("exact_times"), "1")
+		}
+		return fmt.Sprintf("boundary value %s in %s row %d col %s", v, tb.Name, r+1, tb.Header[col])
 	case 20: // a reference column made blank
 		tb := pickTable(t, f, "routes.txt", "stops.txt", "transfers.txt", "trips.txt", "stop_times.txt", "frequencies.txt")
 		if tb == nil || len(tb.Rows) == 0 {
